@@ -31,7 +31,8 @@ VARIABLES ti, nsil, rep
 tvars == <<vars, ti, nsil, rep>>
 
 ResetA(ev) ==
-  LET g == [main |-> ev.main, isr |-> ev.isr, eqd |-> ev.eqdepth, period |-> ev.period, sleeper |-> (ev.sleeper = 1)] IN
+  LET g == [main |-> ev.main, isr |-> ev.isr, eqd |-> ev.eqdepth, period |-> ev.period, sleeper |-> (ev.sleeper = 1),
+            eqstart |-> ev.eqstart, aqstart |-> ev.aqstart] IN
   /\ cfg' = g /\ m' = Start(g).m /\ aq' = Start(g).aq /\ eq' = Start(g).eq /\ isr' = Start(g).isr
   /\ taint' = {} /\ stack' = <<>> /\ acc' = {} /\ claimed' = <<>> /\ sentOk' = {} /\ seen' = <<>>
   /\ obs' = [c |-> -1, op |-> "", var |-> "", calls |-> <<>>]
